@@ -1,4 +1,17 @@
 import BiotiteModel.Model.C12Gff
+/-!
+# C12 — GFF3: proofs about `Model/C12Gff.lean`
+
+1. percent-quoting: `unquoteB_quoteB`, `unquoteB_quote`, `quoteB_no_delim`, `quoteB_space`
+2. `gff_splitC_intercalateC`
+3. one line: `gff_line_roundtrip` (hypothesis `strip line = line`), `gff_createLine_strip`,
+   `gff_line_roundtrip_of_entry` (hypothesis `GffLastOk e` on the entry instead)
+4. file object: `gff_append_inv`, `gff_insert_inv`, `gff_del_inv`, `gff_append_directive_inv`,
+   `gff_set_inv`, `createLine_isEntryLine`
+5. examples (`gffSafe0` = `_NOT_QUOTED`)
+Facts about `showInt`/`readInt` are explicit hypotheses (proved in `Proofs/C12Loc.lean`).
+-/
+set_option linter.unusedVariables false
 namespace BiotiteModel.C12
 
 /-- the characters that delimit GFF3 columns / attributes / values, as byte codes: TAB LF CR ; = & , -/
@@ -515,15 +528,17 @@ theorem gff_append_inv (g g' : Gff) (line : Str) (hinv : g.idx = gffIndex g.line
 
 theorem gff_pyIndex_mem {α : Type} (l : List α) (i : Int) (x : α) (h : pyIndex l i = .ok x) : x ∈ l := by
   unfold pyIndex at h
-  simp only at h
-  split at h
-  · cases h
-  · split at h
-    · rename_i hx
+  extract_lets j at h
+  by_cases hj : j < 0
+  · simp [hj] at h
+  · simp only [hj, if_false] at h
+    cases hx : l[j.toNat]? with
+    | none => simp [hx] at h
+    | some y =>
+      simp only [hx] at h
       injection h with h
       subst h
       exact List.mem_of_getElem? hx
-    · cases h
 
 theorem gff_insert_inv (g g' : Gff) (i : Int) (line : Str) (hinv : g.idx = gffIndex g.lines)
     (hl : IsEntryLine line) (h : gffInsert g i line = .ok g') : g'.idx = gffIndex g'.lines := by
@@ -554,7 +569,8 @@ theorem gff_append_directive_inv (g g' : Gff) (d text : Str) (hinv : g.idx = gff
     subst h
     rw [hinv] at hnf ⊢
     unfold gffIndex at hnf ⊢
-    have hk : gffKind ('#' :: '#' :: text) = .dir text := by simp [gffKind, htext]
+    have ht : text ≠ ['F', 'A', 'S', 'T', 'A'] := by simpa using htext
+    have hk : gffKind ('#' :: '#' :: text) = .dir text := by simp [gffKind, ht]
     rw [gffIndexFrom_append _ _ 0 hnf, gffIndexFrom_cons, hk]
     simp [gffIndexFrom, hnf]
 
@@ -594,7 +610,6 @@ theorem gffIndexFrom_set (line : Str) (hl : IsEntryLine line) : ∀ (ls : List S
       rw [gffIndexFrom_cons, he] at hk
       cases hkd : gffKind l <;> simp only [hkd] at hk ⊢
       · exact ih _ _ hk
-      · cases hk
       · rw [ih _ _ hk]
       · rcases List.mem_cons.mp hk with h | hk
         · omega
@@ -613,5 +628,322 @@ theorem gff_set_inv (g g' : Gff) (i : Int) (line : Str) (hinv : g.idx = gffIndex
     rw [hinv] at hm ⊢
     unfold gffIndex at hm ⊢
     exact (gffIndexFrom_set line hl g.lines 0 li (by simpa using hm)).symm
+
+/-! ### an assembled line is an entry line -/
+
+theorem gff_charBytes_head (c : Char) :
+    ∃ b rest, charBytes c = b :: rest ∧ (b < 128 → c = Char.ofNat b) := by
+  unfold charBytes String.utf8EncodeChar
+  simp only []
+  split
+  · refine ⟨_, _, rfl, fun _ => ?_⟩
+    rename_i h
+    have : c.val.toNat % 256 = c.val.toNat := Nat.mod_eq_of_lt (by omega)
+    show c = Char.ofNat (UInt8.ofNat c.val.toNat).toNat
+    rw [UInt8.toNat_ofNat']
+    show c = Char.ofNat (c.val.toNat % 256)
+    rw [this]
+    exact (Char.ofNat_toNat c).symm
+  · split
+    · refine ⟨_, _, rfl, fun hb => ?_⟩
+      simp only [UInt8.toNat_ofNat'] at hb
+      omega
+    · split
+      · refine ⟨_, _, rfl, fun hb => ?_⟩
+        simp only [UInt8.toNat_ofNat'] at hb
+        omega
+      · refine ⟨_, _, rfl, fun hb => ?_⟩
+        simp only [UInt8.toNat_ofNat'] at hb
+        omega
+
+theorem gff_rstrip_prefix (t : Str) : rstrip t <+: t := by
+  unfold rstrip
+  have h : t.reverse.dropWhile isSpace <:+ t.reverse := List.dropWhile_suffix _
+  have := List.reverse_prefix.mpr h
+  simpa using this
+
+theorem gff_strip_head (s : Str) (c : Char) (h : (strip s).head? = some c) : isSpace c = false := by
+  unfold strip at h
+  obtain ⟨r, hr⟩ := gff_rstrip_prefix (lstrip s)
+  have hh : (lstrip s).head? = some c := by
+    cases hq : rstrip (lstrip s) with
+    | nil => rw [hq] at h; cases h
+    | cons a u =>
+      rw [hq] at h hr
+      rw [← hr]
+      simpa using h
+  have := List.head?_dropWhile_not isSpace s
+  unfold lstrip at hh
+  rw [hh] at this
+  exact this
+
+theorem gff_strip_last (s : Str) (c : Char) (h : (strip s).getLast? = some c) : isSpace c = false := by
+  unfold strip rstrip at h
+  rw [List.getLast?_reverse] at h
+  have := List.head?_dropWhile_not isSpace (lstrip s).reverse
+  rw [h] at this
+  exact this
+
+/-- first character of a non-empty quoted string: `%`, or the (ASCII) first character of the input -/
+theorem gff_quote_head (safe : List Nat) (s : Str) (c : Char) (h : (quote safe s).head? = some c) :
+    c = '%' ∨ s.head? = some c := by
+  cases s with
+  | nil => simp [quote, quoteB, utf8] at h
+  | cons a as =>
+    obtain ⟨b, rest, hb, hasc⟩ := gff_charBytes_head a
+    have hu : utf8 (a :: as) = b :: (rest ++ utf8 as) := by
+      have : utf8 (a :: as) = charBytes a ++ utf8 as := by simp [utf8, charBytes]
+      rw [this, hb]; rfl
+    have hq : quote safe (a :: as) = quoteByte safe b ++ quoteB safe (rest ++ utf8 as) := by
+      simp [quote, hu, quoteB]
+    rw [hq] at h
+    unfold quoteByte at h
+    by_cases hsf : isSafe safe b = true
+    · simp only [hsf, if_true, List.singleton_append, List.head?_cons, Option.some.injEq] at h
+      right
+      rw [← h, ← hasc (gff_isSafe_lt safe b hsf)]
+      rfl
+    · simp only [hsf] at h
+      left
+      simpa using h.symm
+
+theorem createLine_isEntryLine (safe : List Nat) (hs : SafeOk safe) (e : GffEntry Str) (line : Str)
+    (h : createLine safe e = .ok line) (hhash : (strip e.seqid).head? ≠ some '#') : IsEntryLine line := by
+  obtain ⟨hl, hne, -⟩ := gff_createLine_ok safe e line h
+  cases hq : quote safe (strip e.seqid) with
+  | nil => exact absurd hq hne
+  | cons c cs =>
+    have hline : line = c :: (cs ++ tab :: intercalateC tab (gffCols safe e).tail) := by
+      rw [hl]; simp [gffCols, intercalateC, hq]
+    refine ⟨c, _, hline, ?_, ?_⟩
+    · rcases gff_quote_head safe (strip e.seqid) c (by rw [hq]; rfl) with rfl | hh
+      · decide
+      · intro he
+        have := gff_strip_head _ _ hh
+        rw [he] at this
+        revert this; decide
+    · rcases gff_quote_head safe (strip e.seqid) c (by rw [hq]; rfl) with rfl | hh
+      · decide
+      · intro he
+        rw [he] at hh
+        exact hhash hh
+
+/-! ### `strip line = line` from a condition on the entry -/
+
+theorem gff_dropWhile_of_head {p : Char → Bool} (s : Str)
+    (h : ∀ c, s.head? = some c → p c = false) : s.dropWhile p = s := by
+  cases s with
+  | nil => rfl
+  | cons a t => simp [h a (by simp)]
+
+theorem gff_strip_of_noEdgeSpace (s : Str) (h1 : ∀ c, s.head? = some c → isSpace c = false)
+    (h2 : ∀ c, s.getLast? = some c → isSpace c = false) : strip s = s := by
+  have hl : lstrip s = s := gff_dropWhile_of_head s h1
+  unfold strip
+  rw [hl]
+  unfold rstrip
+  rw [gff_dropWhile_of_head, List.reverse_reverse]
+  intro c hc
+  apply h2
+  simpa [List.head?_reverse] using hc
+
+theorem gff_charBytes_last (c : Char) :
+    ∃ ini b, charBytes c = ini ++ [b] ∧ (b < 128 → c = Char.ofNat b) := by
+  unfold charBytes String.utf8EncodeChar
+  simp only []
+  split
+  · refine ⟨[], _, rfl, fun _ => ?_⟩
+    rename_i h
+    have : c.val.toNat % 256 = c.val.toNat := Nat.mod_eq_of_lt (by omega)
+    show c = Char.ofNat (UInt8.ofNat c.val.toNat).toNat
+    rw [UInt8.toNat_ofNat']
+    show c = Char.ofNat (c.val.toNat % 256)
+    rw [this]
+    exact (Char.ofNat_toNat c).symm
+  · split
+    · refine ⟨[_], _, rfl, fun hb => ?_⟩
+      simp only [UInt8.toNat_ofNat'] at hb
+      omega
+    · split
+      · refine ⟨[_, _], _, rfl, fun hb => ?_⟩
+        simp only [UInt8.toNat_ofNat'] at hb
+        omega
+      · refine ⟨[_, _, _], _, rfl, fun hb => ?_⟩
+        simp only [UInt8.toNat_ofNat'] at hb
+        omega
+
+theorem gff_intercalateC_getLast (c : Char) : ∀ (xs : List Str) (l : Str),
+    xs.getLast? = some l → l ≠ [] → (intercalateC c xs).getLast? = l.getLast? := by
+  intro xs
+  induction xs with
+  | nil => intro l h; cases h
+  | cons x xs ih =>
+    intro l h hne
+    cases xs with
+    | nil =>
+      simp only [List.getLast?_singleton, Option.some.injEq] at h
+      subst h; rfl
+    | cons y ys =>
+      rw [List.getLast?_cons_cons] at h
+      have hr := ih l h hne
+      obtain ⟨z, hz⟩ : ∃ z, l.getLast? = some z := by
+        cases hl : l.getLast? with
+        | none => exact absurd (List.getLast?_eq_none_iff.mp hl) hne
+        | some z => exact ⟨z, rfl⟩
+      rw [hz] at hr ⊢
+      simp [intercalateC, List.getLast?_append, List.getLast?_cons, hr]
+
+/-- last character of a quoted string is not a whitespace unless the input ends with one -/
+theorem gff_quote_last (safe : List Nat) (s : Str) (c : Char) (h : (quote safe s).getLast? = some c)
+    (hsl : ∀ d, s.getLast? = some d → isSpace d = false) : isSpace c = false := by
+  rcases List.eq_nil_or_concat s with rfl | ⟨ini, a, rfl⟩
+  · simp [quote, quoteB, utf8] at h
+  · rw [List.concat_eq_append] at h hsl
+    obtain ⟨bi, b, hb, hasc⟩ := gff_charBytes_last a
+    have hu : utf8 (ini ++ [a]) = (utf8 ini ++ bi) ++ [b] := by
+      have : utf8 (ini ++ [a]) = utf8 ini ++ charBytes a := by simp [utf8, charBytes]
+      rw [this, hb, List.append_assoc]
+    have hq : quote safe (ini ++ [a]) = quoteB safe (utf8 ini ++ bi) ++ quoteByte safe b := by
+      simp [quote, hu, quoteB]
+    rw [hq] at h
+    have ha : isSpace a = false := hsl a (by simp)
+    unfold quoteByte at h
+    by_cases hsf : isSafe safe b = true
+    · simp only [hsf, if_true] at h
+      have hc : c = Char.ofNat b := by simpa using h.symm
+      rw [hc, ← hasc (gff_isSafe_lt safe b hsf)]
+      exact ha
+    · simp only [hsf] at h
+      have hc : c = hexChar (b % 16) := by simpa [List.getLast?_append] using h.symm
+      rw [hc]
+      exact (gff_hexChar_props _ (by omega)).2.2
+
+/-- the entry-level condition replacing `hlast`: the last attribute value does not end with a
+whitespace character (vacuous without attributes or with an empty last value) -/
+def GffLastOk (e : GffEntry Str) : Prop :=
+  ∀ kv, e.attrs.getLast? = some kv → ∀ d, kv.2.getLast? = some d → isSpace d = false
+
+theorem gffAttrsCol_last (safe : List Nat) (attrs : List (Str × Str)) (c : Char)
+    (h : (gffAttrsCol safe attrs).getLast? = some c)
+    (hl : ∀ kv, attrs.getLast? = some kv → ∀ d, kv.2.getLast? = some d → isSpace d = false) :
+    isSpace c = false := by
+  unfold gffAttrsCol at h
+  split at h
+  · simp only [List.getLast?_singleton, Option.some.injEq] at h
+    subst h; decide
+  · rename_i hne
+    cases hkv : attrs.getLast? with
+    | none =>
+      rw [List.getLast?_eq_none_iff] at hkv
+      subst hkv; simp at hne
+    | some kv =>
+      have hitems : (attrs.map (fun kv => quote safe kv.1 ++ '=' :: quote safe kv.2)).getLast? =
+          some (quote safe kv.1 ++ '=' :: quote safe kv.2) := by
+        rw [List.getLast?_map, hkv]; rfl
+      rw [gff_intercalateC_getLast ';' _ _ hitems (by simp)] at h
+      cases hq : (quote safe kv.2).getLast? with
+      | none =>
+        rw [List.getLast?_eq_none_iff] at hq
+        rw [hq] at h
+        simp at h
+        subst h; decide
+      | some z =>
+        have : c = z := by
+          simp [List.getLast?_append, List.getLast?_cons, hq] at h
+          exact h.symm
+        subst this
+        exact gff_quote_last safe kv.2 c hq (hl kv hkv)
+
+theorem gff_createLine_strip (safe : List Nat) (e : GffEntry Str) (line : Str)
+    (hline : createLine safe e = .ok line) (hlast : GffLastOk e) : strip line = line := by
+  obtain ⟨hl, hne, -⟩ := gff_createLine_ok safe e line hline
+  apply gff_strip_of_noEdgeSpace
+  · intro c hc
+    cases hq : quote safe (strip e.seqid) with
+    | nil => exact absurd hq hne
+    | cons a cs =>
+      have hh : line.head? = some a := by rw [hl]; simp [gffCols, intercalateC, hq]
+      rw [hh] at hc
+      injection hc with hc
+      subst hc
+      rcases gff_quote_head safe (strip e.seqid) a (by rw [hq]; rfl) with rfl | hh
+      · decide
+      · exact gff_strip_head _ _ hh
+  · intro c hc
+    have hcolne : gffAttrsCol safe e.attrs ≠ [] := by
+      unfold gffAttrsCol
+      split
+      · simp
+      · rename_i hne
+        intro he
+        cases hat : e.attrs with
+        | nil => simp [hat] at hne
+        | cons kv kvs =>
+          have : '=' ∈ intercalateC ';' (e.attrs.map (fun kv => quote safe kv.1 ++ '=' :: quote safe kv.2)) :=
+            gff_intercalateC_mem ';' '=' _ (quote safe kv.1 ++ '=' :: quote safe kv.2)
+              (by rw [hat]; simp) (by simp)
+          rw [he] at this
+          cases this
+    rw [hl, gff_intercalateC_getLast tab (gffCols safe e) (gffAttrsCol safe e.attrs) (by simp [gffCols])
+      hcolne] at hc
+    exact gffAttrsCol_last safe e.attrs c hc hlast
+
+/-- the line round trip with the whitespace condition stated on the entry -/
+theorem gff_line_roundtrip_of_entry (safe : List Nat) (hs : SafeOk safe)
+    (hint : ∀ i : Int, readInt (showInt i) = some i)
+    (hintc : ∀ i : Int, ∀ c ∈ showInt i, c = '-' ∨ ('0' ≤ c ∧ c ≤ '9'))
+    (hintne : ∀ i : Int, showInt i ≠ [])
+    (e : GffEntry Str) (line : Str) (hline : createLine safe e = .ok line)
+    (hscore : ∀ t, e.score = some t → t ≠ ['.'] ∧ t ≠ [] ∧ ∀ c ∈ t, c ≠ tab ∧ isSpace c = false)
+    (hkeys : (e.attrs.map (fun kv => utf8 kv.1)).Nodup)
+    (hlast : GffLastOk e) :
+    parseLine line = .ok e.bytes :=
+  gff_line_roundtrip safe hs hint hintc hintne e line hline hscore hkeys
+    (gff_createLine_strip safe e line hline hlast)
+
+/-! ## 5. non-vacuity -/
+
+/-- `_NOT_QUOTED` of biotite: `string.punctuation` without `%;=&,`, plus the blank -/
+def gffSafe0 : List Nat := "!\"#$'()*+-./:<>?@[\\]^_`{|}~ ".toList.map Char.toNat
+
+theorem gffSafe0_ok : SafeOk gffSafe0 := by unfold SafeOk; decide
+
+theorem gffSafe0_spaceOk : SafeSpaceOk gffSafe0 := by
+  intro b hb hsp
+  have hm : b ∈ gffSafe0 := by simpa using hb
+  have key : ∀ b ∈ gffSafe0, isSpace (Char.ofNat b) = true → b = 32 := by decide
+  exact key b hm hsp
+
+example : quote gffSafe0 "a%41b;c=d".toList = "a%2541b%3Bc%3Dd".toList := by decide
+example : unquoteB "a%2541b".toList = "a%41b".toList.map Char.toNat := by decide
+example : unquoteB "100%".toList = "100%".toList.map Char.toNat := by decide
+example : quote gffSafe0 "é\t".toList = "%C3%A9%09".toList := by decide
+example : splitC ';' (intercalateC ';' ["a=b".toList, [], "c".toList]) [] = ["a=b".toList, [], "c".toList] := by
+  decide
+
+def gffEntry0 : GffEntry Str :=
+  { seqid := " chr 1".toList, source := "src;x".toList, type := "gene".toList, start := 5, stop := 42,
+    score := none, strand := some true, phase := some 0,
+    attrs := [("ID".toList, "g=1".toList), ("Note".toList, "a,b c".toList)] }
+
+example : createLine gffSafe0 gffEntry0 =
+    .ok "chr 1\tsrc%3Bx\tgene\t5\t42\t.\t-\t0\tID=g%3D1;Note=a%2Cb c".toList := by decide
+
+example : parseLine "chr 1\tsrc%3Bx\tgene\t5\t42\t.\t-\t0\tID=g%3D1;Note=a%2Cb c".toList =
+    .ok gffEntry0.bytes := by decide
+
+/-- the known defect behind `hlast`: a trailing blank of the last attribute value is lost -/
+example : (parseLine "s\ts\tt\t1\t2\t.\t+\t.\tk=v ".toList).map (·.attrs) =
+    .ok [("k".toList.map Char.toNat, "v".toList.map Char.toNat)] := by decide
+
+example : gffIndex ["##gff-version 3".toList, "a\tb".toList, [], "#c".toList, "d".toList] =
+    ⟨[1, 4], [("gff-version 3".toList, 0)], false⟩ := by decide
+
+example : (gffAppend Gff.empty "a\tb".toList).map (·.idx) =
+    .ok ⟨[1], [("gff-version 3".toList, 0)], false⟩ := by decide
+
+/-- `__setitem__` with a line that is not an entry line breaks the index (why `IsEntryLine` is assumed) -/
+example : ∃ g', gffSet (gffRead ["a".toList]) 0 "#x".toList = .ok g' ∧ g'.idx ≠ gffIndex g'.lines := by
+  refine ⟨_, rfl, ?_⟩; decide
 
 end BiotiteModel.C12
